@@ -44,6 +44,8 @@ func vxMapOfDo(m *MapOf[int, int], op int, k int, nv int, del bool) vxResOf {
 		m.Clear()
 	case mopSize:
 		r.visits = m.Size()
+	case mopRange:
+		m.Range(func(k int, v int) bool { r.visits++; return true })
 	}
 	return r
 }
